@@ -19,7 +19,7 @@ import (
 
 // LockWaitMs is the lock wait time of `lock` calls without the n flag (wall clock: the mock makes a blocked request
 // sleep 5 ms, so a waiter gives up after a few rounds).
-const LockWaitMs = 20
+const LockWaitMs = 12
 
 type txnState struct {
 	txn     *transaction.KVTxn
@@ -118,7 +118,14 @@ func (c *Client) callEnd(n int, call, result string, onEnd func()) {
 	w.rec.mu.Lock()
 	if !c.crashed.Load() {
 		w.emitLocked(fmt.Sprintf("api %s %d end %s", c.name, n, result))
-		w.rec.run.Count("res:" + call + ":" + strings.Join(strings.Fields(result+" -")[:2], " "))
+		f := strings.Fields(result + " -")
+		cls := f[0]
+		if cls == "err" {
+			cls += ":" + f[1]
+		} else if cls != "ok" && cls != "undetermined" {
+			cls = "ok"
+		}
+		w.rec.run.Count("res:" + call + ":" + cls)
 		if onEnd != nil {
 			onEnd()
 		}
